@@ -56,13 +56,15 @@ func (t *inProcessTransport) Send(ctx context.Context, e envelope) error {
 }
 
 func (t *inProcessTransport) Receive(ctx context.Context) (envelope, error) {
-	// What the peer sent before the transport was closed is still delivered
+	// What the peer sent before the transport was closed is still delivered. The closed flag is
+	// read first: what is queued when it is seen is everything that was sent before the closing
+	closed := t.isClosed()
 	select {
 	case e := <-t.envChan:
 		return e, nil
 	default:
 	}
-	if t.isClosed() {
+	if closed {
 		return nil, errors.New("transport is closed")
 	}
 	select {
